@@ -157,6 +157,8 @@ pub fn dispatch(op: &[Value]) -> Result<Value, String> {
             Ok(json!([h, hi as u32, un as u32]))
         }
         "v_add_ids_only" => libmathcat::verif::interface::add_ids_only(&s(op, 1)).map(Value::String).map_err(e2s),
+        "v_canon_stage" => libmathcat::verif::interface::canonicalize_stage(&s(op, 1), &s(op, 2)).map(Value::String).map_err(e2s),
+        "v_definitions_set" => Ok(json!(libmathcat::verif::canonicalize::definitions_set(&s(op, 1)))),
         _ => Err(format!("HARNESS: unknown op '{}'", name)),
     }
 }
